@@ -6,9 +6,42 @@ PROP = 'C05'
 ASPECTS = {'isolation', 'valid', 'values', 'members'}
 
 
+def concurrent_creation(tier, scripts=None):
+    """real concurrency (not call-granularity): the workers of the dispatcher create entities at the same time while locked"""
+    import os, re, emcmp
+    drv, err = vlib.build_driver('em_driver')
+    if err:
+        return None, {'error': str(err)}
+    rounds, per = (150, 40) if tier == 'quick' else (3000, 60)
+    scripts = scripts or [('pc%d' % t, ['maxthreads %d' % mgr.MAXTHREADS, 'threads %d' % t, 'reg 0', 'update', 'pcreate %d %d' % (rounds, per), 'create 0 0', 'pcreate %d %d' % (rounds // 3, 7)])
+               for t in (2, 3, 4, 8)]
+    io, _ = emcmp.run_driver(drv, emcmp.scripts_text(scripts), os.path.join(vlib.BUILD, 'work', PROP + '-pc'), timeout=1200)
+    created = 0
+    for name, blocks in emcmp.parse(io):
+        for b in blocks:
+            if b['crash']:
+                return (name, 'implementation crashed: ' + b['crash'], dict(scripts)[name]), {}
+            r = (b['tags'].get('R') or ['R'])[0]
+            if 'pcreate' in r:
+                kv = dict(re.findall(r'(\w+)=(\d+)', r))
+                created += int(kv.get('created', 0))
+                if int(kv['dup']) or int(kv['invalid']) or int(kv['miscount']):
+                    return (name, 'entities created concurrently while locked: %s of %s handles returned twice, %s not alive after the unlock, %s round(s) with a wrong number of new members'
+                            % (kv['dup'], kv['created'], kv['invalid'], kv['miscount']), dict(scripts)[name]), {}
+    return None, {'concurrent_creation_stress': {'scripts': len(scripts), 'entities_created': created, 'workers': [2, 3, 4, 8]}}
+
+
 def run(tier, seed, replay=None):
     rng = vlib.Rng(seed)
+    rl = [l.rstrip('\n') for l in open(replay) if l.strip() and not l.startswith('#')] if replay else []
+    only_pc = any(l.startswith('pcreate') for l in rl)
+    bad, pc_cov = concurrent_creation(tier, [('replay', rl)] if only_pc else None) if (only_pc or not replay) else (None, {})
+    if only_pc and not bad:
+        return {'violations': [], 'coverage': dict(pc_cov, rule='replay of a concurrent-creation script', evaluations=1, distinct_nontrivial=1), 'level': 'proof'}
+    if bad:
+        p = vlib.write_replay(PROP, 'failing_script.txt', '# %s\n# script %s (a race: repeat the run if it passes once)\n%s\n' % (bad[1], bad[0], '\n'.join(bad[2])))
+        return {'violations': [(p, '')], 'coverage': {'rule': 'concurrent creation stress failed before the script comparison ran', 'evaluations': 4, 'distinct_nontrivial': 4}, 'level': 'proof'}
     n, maxops = (220, 70) if tier == 'quick' else (3000, 300)
     prof = mgr.profile(PROP)
     scripts = mgr.corpus(PROP) + [('g%d' % i, mgr.gen_script(rng.fork(PROP + '-%d' % i), maxops, prof)) for i in range(n)]
-    return mgrcheck.run_check(PROP, scripts, ASPECTS, replay=replay, assumptions=['component payloads are modelled as one integer per instance', 'locked-mode API calls from different threads are atomic with respect to each other (call-granularity interleavings; premise validated by the TSan run of C06)'])
+    return mgrcheck.run_check(PROP, scripts, ASPECTS, replay=replay, extra_cov=pc_cov, assumptions=['component payloads are modelled as one integer per instance', 'locked-mode API calls from different threads are atomic with respect to each other (call-granularity interleavings; premise validated by the TSan run of C06)'])
